@@ -244,8 +244,10 @@ func evalAt(c Case, now time.Time, inf *info) evid.Verdict {
 		}
 		tf.Write(file)
 		tf.Close()
-		cc, err = credentials.LoadCCache(tf.Name())
-		os.Remove(tf.Name())
+		func() {
+			defer os.Remove(tf.Name()) // also when LoadCCache panics
+			cc, err = credentials.LoadCCache(tf.Name())
+		}()
 		if err != nil {
 			return parseErr(c, err, file)
 		}
